@@ -34,7 +34,7 @@ Bound(be, f) ==
   CASE be = "std"  -> [ulp |-> 0, abs |-> 0, rel |-> 0]
     [] be = "libm" -> [ulp |-> 4, abs |-> 0, rel |-> 0]
     [] be = "fallback" /\ f = "recip_sqrt" -> [ulp |-> -1, abs |-> 8, rel |-> 200]        \* 5e-3
-    [] be = "mm" /\ f \in {"sin", "cos"}   -> [ulp |-> -1, abs |-> 3146, rel |-> 0]       \* 3e-3
+    [] be = "mm" /\ f \in {"sin", "cos"}   -> [ulp |-> -1, abs |-> 1573, rel |-> 0]       \* 1.5e-3 (measured: 1.09e-3)
     [] be = "mm" /\ f \in {"sqrt", "recip_sqrt"} -> [ulp |-> -1, abs |-> 8, rel |-> 200]  \* 5e-3
     [] be = "mm" /\ f = "tan"              -> [ulp |-> -1, abs |-> 3146, rel |-> 33]      \* 3e-2
     [] be = "mm" /\ f \in {"asin", "acos"} -> [ulp |-> -1, abs |-> 52429, rel |-> 0]      \* 5e-2
